@@ -200,9 +200,13 @@ theorem tidy_checked (role : P → Role) (W : Work L Z R) (r : Routine) (z : Opt
   unfold checked
   apply tidy_readSeq role first _ h1
   intro o1
-  cases W.check r o1 with
+  cases W.check r 0 o1 with
   | error e => exact tidy_fail role e
-  | ok u => exact tidy_readSeq role second _ h2 (fun o2 => hk _ _)
+  | ok u =>
+    refine tidy_readSeq role second _ h2 (fun o2 => ?_)
+    cases W.check r 1 (o1 ++ o2) with
+    | error e => exact tidy_fail role e
+    | ok u => exact hk _ _
 
 /-- every routine, every option: inside the footprint, own temp file gone at the end -/
 theorem tidy_prog (role : P → Role) (W : Work L Z R) (r : Routine) (a : Args P) (ha : a.Roles role) :
